@@ -69,6 +69,7 @@ Red   == <<"r","e","d">>
 Green == <<"g","r","e","e","n">>
 Blue  == <<"b","l","u","e">>
 Colours == {Red, Green, Blue}
+Pink  == <<"p","i","n","k">>        \* accepted only by the re-registered (second) converter of the type Colour
 Unsigned(t) == IF t # <<>> /\ t[1] \in {"-", "+"} THEN Tail(t) ELSE t
 AllDigits(s) == \A k \in DOMAIN s : s[k] \in Digits
 IsIntTok(t)   == LET b == Unsigned(t) IN b # <<>> /\ AllDigits(b)
@@ -94,6 +95,7 @@ InClass(kind, t) == CASE kind = "any"      -> t # <<>>
                       [] kind = "word"     -> IsWordTok(t)
                       [] kind = "float"    -> IsFloatTok(t)
                       [] kind = "custom"   -> t \in Colours
+                      [] kind = "custom2"  -> t \in Colours \cup {Pink}
                       [] kind = "optional" -> t \in Colours
                       [] kind = "many0"    -> t \in Colours
                       [] kind = "falsy"    -> t \in FalsyToks
@@ -131,6 +133,7 @@ Conv(mk, fk, tok, orig) ==
    ELSE CASE fk = "int"      -> VInt(IntOf(tok))
           [] fk = "float"    -> VFloat(MilliOf(tok))
           [] fk = "custom"   -> VStr(UpperS(tok))
+          [] fk = "custom2"  -> VStr(Cap(tok))
           [] fk = "optional" -> VStr(UpperS(tok))
           [] fk = "many0"    -> VList(<<UpperS(tok)>>)
           [] fk = "falsy"    -> FalsyVal(tok)
@@ -166,7 +169,8 @@ ParseSpec(fk) == CASE fk = "any"    -> <<"}">>
                    [] fk = "word"   -> <<":","w","}">>
                    [] fk = "float"  -> <<":","f","}">>
                    [] fk = "custom" -> <<":","C","o","l","o","u","r","}">>
-                   [] fk = "many"   -> <<":","C","o","l","o","u","r","+","}">>
+                   [] fk = "custom2" -> <<":","C","o","l","o","u","r","}">>
+                   [] fk = "many"   -> <<":","H","u","e","+","}">>
                    [] fk = "falsy"  -> <<":","F","a","l","s","y","}">>
                    [] fk = "many0"  -> <<":","S","p","C","o","l","o","u","r","*","}">>
                    [] OTHER         -> <<":","S","p","C","o","l","o","u","r","?","}">>
@@ -246,11 +250,20 @@ ArgsOf(p, mk, toks, spans) ==
 
 \* ---------------------------------------------------------------- the registry
 Types == {"given", "when", "then", "step"}
-InitReg == [steps |-> [t \in Types |-> <<>>], current |-> "parse", default |-> "parse"]
+\* tver: which converter the custom type Colour currently has (1: red|green|blue -> upper case;
+\* 2, after the step modules re-registered the name: red|green|blue|pink -> capitalised)
+InitReg == [steps |-> [t \in Types |-> <<>>], current |-> "parse", default |-> "parse", tver |-> 1]
 \* SimplifiedRegexMatcher keeps "^pattern$" as its pattern attribute
 Stored(mk, text) == IF mk = "re" THEN <<"^">> \o text \o <<"$">> ELSE text
 \* func identifies the step function and with it its source location (one function per location)
-Entry(p, mk, func) == LET text == Render(p, mk) IN
+\* a parse / cfparse definition compiles its pattern with the type converters registered at definition time:
+\* a field of the type Colour defined after the re-registration is a field of the second converter for good
+Resolve(p, mk, tver) == IF mk \in ParseKinds /\ tver = 2
+                        THEN [n \in DOMAIN p |-> IF p[n].k = "custom" THEN [p[n] EXCEPT !.k = "custom2"] ELSE p[n]]
+                        ELSE p
+Entry(p0, mk, func, tver) ==
+                      LET text == Render(p0, mk)
+                          p == Resolve(p0, mk, tver) IN
                       [pat |-> p, kind |-> mk, text |-> text, stored |-> Stored(mk, text), func |-> func]
 \* Matcher.matches(text): the stored pattern itself, or a (non-error) match
 Matches(e, text) == e.stored = text \/ Match(e.pat, Split(text)).ok
@@ -268,11 +281,13 @@ Scan(list, i, text, newstored, func) ==
 UseMatcher(st, mk) == [st EXCEPT !.current = mk]
 \* environment.py: use_step_matcher(mk), then load_step_modules: use_current_step_matcher_as_default()
 SetDefault(st, mk) == [st EXCEPT !.current = mk, !.default = mk]
+\* register_type(Colour=<the second converter>) in a step module (needs a parse / cfparse current matcher)
+ReType(st) == [st EXCEPT !.tver = 2]
 \* load_step_modules after each step module: use_default_step_matcher()
 ModuleEnd(st)      == [st EXCEPT !.current = st.default]
 \* add_step_definition(type, Render(p, current), func): res in {ok, ignored, ambiguous}
 Register(st, ty, p, func) ==
-   LET e == Entry(p, st.current, func)
+   LET e == Entry(p, st.current, func, st.tver)
        r == Scan(st.steps[ty], 1, e.text, e.stored, func)
    IN [res |-> r, st |-> IF r = "ok" THEN [st EXCEPT !.steps[ty] = Append(@, e)] ELSE st]
 
